@@ -310,6 +310,26 @@ func RuleKTransferFresh(c *core.Ctx) {
 			n++
 			arg := call.Call.Args[idx]
 			key := fmt.Sprintf("%s:map transferred by %s into %s starts empty", core.FuncName(fn), call.Call.StaticCallee().Name(), describeValue(p, call.Call.Args[(idx+1)%len(call.Call.Args)]))
+			if freshMapResult(p, arg, 0) {
+				c.Ob(rule, key, call.Pos(), core.FuncName(fn), core.Discharged, "the map is built anew by a helper for this invocation (a local of the helper, returned)")
+				return
+			}
+			// a local that is assigned the helper's fresh result before the transfer
+			if ld0, ok := arg.(*ssa.UnOp); ok && ld0.Op == token.MUL {
+				if al, ok := ld0.X.(*ssa.Alloc); ok && al.Parent() == fn {
+					all, any := true, false
+					for _, st := range core.AllStoresToCell(al) {
+						any = true
+						if !freshMapResult(p, st.Val, 0) && !core.IsNilConst(st.Val) {
+							all = false
+						}
+					}
+					if all && any {
+						c.Ob(rule, key, call.Pos(), core.FuncName(fn), core.Discharged, "the map is a variable of this invocation, assigned only maps built anew for it")
+						return
+					}
+				}
+			}
 			ld, isLoad := arg.(*ssa.UnOp)
 			if !isLoad || ld.Op != token.MUL {
 				c.Ob(rule, key, call.Pos(), core.FuncName(fn), core.Undecided, "the transferred map is not read from a variable: "+describeValue(p, arg))
@@ -340,6 +360,72 @@ func RuleKTransferFresh(c *core.Ctx) {
 		})
 	}
 	c.Floor(rule, 2)
+}
+
+// freshMapResult: v is a map built anew by the call that yields it — the
+// (extracted) result of a module function all of whose returns hand back, at
+// that position, a map that is a local variable of the function (nil on
+// entry), a make, or nil.
+func freshMapResult(p *core.Prog, v ssa.Value, depth int) bool {
+	if depth > 2 {
+		return false
+	}
+	idx := 0
+	var call *ssa.Call
+	switch x := v.(type) {
+	case *ssa.Extract:
+		c, ok := x.Tuple.(*ssa.Call)
+		if !ok {
+			return false
+		}
+		call, idx = c, x.Index
+	case *ssa.Call:
+		call = x
+	default:
+		return false
+	}
+	callee := call.Call.StaticCallee()
+	if callee == nil || callee.Blocks == nil || !p.InModule(callee) {
+		return false
+	}
+	ok, any := true, false
+	core.EachInstr(callee, func(ins ssa.Instruction) {
+		ret, isRet := ins.(*ssa.Return)
+		if !isRet || idx >= len(ret.Results) {
+			return
+		}
+		any = true
+		var fresh func(r ssa.Value, d int) bool
+		fresh = func(r ssa.Value, d int) bool {
+			if d > 4 {
+				return false
+			}
+			switch y := r.(type) {
+			case *ssa.MakeMap:
+				return true
+			case *ssa.Const:
+				return y.Value == nil
+			case *ssa.Phi:
+				for _, e := range y.Edges {
+					if !fresh(e, d+1) {
+						return false
+					}
+				}
+				return true
+			case *ssa.UnOp:
+				if al, isAlloc := y.X.(*ssa.Alloc); isAlloc && y.Op == token.MUL && al.Parent() == callee {
+					return true // a local of the callee: nil on entry of every call
+				}
+			case *ssa.Extract, *ssa.Call:
+				return freshMapResult(p, r, depth+1)
+			}
+			return false
+		}
+		if !fresh(ret.Results[idx], 0) {
+			ok = false
+		}
+	})
+	return ok && any
 }
 
 // accumulatedBetween: a use of the cell other than the reset store st occurs
@@ -493,12 +579,26 @@ func RuleKDayReset(c *core.Ctx) {
 					if loc == nil {
 						return
 					}
-					bo, ok := st.Val.(*ssa.BinOp)
-					if !ok || (bo.Op != token.ADD && bo.Op != token.SUB) {
+					if bo, ok := st.Val.(*ssa.BinOp); ok && (bo.Op == token.ADD || bo.Op == token.SUB) {
+						if ld, ok := bo.X.(*ssa.UnOp); ok && stateLoc(ld.X) == loc {
+							accum[loc] = st.Pos()
+						}
 						return
 					}
-					if ld, ok := bo.X.(*ssa.UnOp); ok && stateLoc(ld.X) == loc {
-						accum[loc] = st.Pos()
+					// read-modify-write through a helper: x = f(..., x, ...)
+					var call *ssa.Call
+					switch y := st.Val.(type) {
+					case *ssa.Extract:
+						call, _ = y.Tuple.(*ssa.Call)
+					case *ssa.Call:
+						call = y
+					}
+					if call != nil {
+						for _, a := range call.Call.Args {
+							if ld, ok := a.(*ssa.UnOp); ok && ld.Op == token.MUL && stateLoc(ld.X) == loc {
+								accum[loc] = st.Pos()
+							}
+						}
 					}
 				})
 			}
